@@ -565,7 +565,8 @@ def find_rules(css_text):
     def walk(items, path):
         for it in items:
             if it[0] == "rule":
-                out.append((serialize_value(norm_tokens(it[1], drop_comments=True)), parse_declarations(it[2]), tuple(path)))
+                key = norm_tokens(it[1], drop_comments=True)
+                out.append((serialize_value(key), parse_declarations(it[2]), tuple(path), key))
             elif it[0] == "at" and it[3] is not None and (it[1].lower() in RULE_LIST_AT):
                 walk(parse_rules(it[3], False), path + [it[1].lower()])
 
